@@ -238,24 +238,43 @@ def link_location(link):
     return z3.Extract(link, z3.IntVal(0), z3.Length(link) - z3.Length(bl))
 
 
-def symlink_post(c):
-    """the link is created inside the root; an absolute target is a mapped (inside) path; a relative target,
-    RESOLVED AGAINST THE DIRECTORY THAT HOLDS THE LINK (the location of map_path(newpath), for every newpath byte
-    string - trailing slashes, '//' and '.' components included), names the same file as a path inside the root"""
+def symlink_parts(c):
+    """(target, link, root, [the candidate witnesses: for each map_path call q of this path the statement "q's
+    result is inside the root and the relative target, RESOLVED AGAINST THE DIRECTORY THAT HOLDS THE LINK, names the
+    same file as it"]) - or None when the path did not reach exactly one os.symlink call"""
     evs = c.events('os.symlink')
     if len(evs) != 1:
-        return z3.BoolVal(False)
+        return None
     target, link = [a.z for a in evs[0][1]]
     root = chroot(c)
     resolved = z3.Concat(link_location(link), target)
-    rel_alts = [z3.And(P.inside(Z, root, q['ret'].z), os_realpath(q['ret'].z) == os_realpath(resolved))
-                for q in c.calls('self.map_path')]
-    absolute = z3.PrefixOf(Z.lit(b'/'), c.arg('oldpath'))
-    return z3.Implies(chroot_set(c), z3.And(
-        P.inside(Z, root, link),
-        z3.Implies(absolute, P.inside(Z, root, target)),
-        z3.Implies(z3.Not(absolute), z3.And(z3.Not(z3.PrefixOf(Z.lit(b'/'), target)),
-                                            z3.Or(rel_alts) if rel_alts else z3.BoolVal(False)))))
+    alts = [z3.And(P.inside(Z, root, q['ret'].z), os_realpath(q['ret'].z) == os_realpath(resolved))
+            for q in c.calls('self.map_path')]
+    return target, link, root, alts
+
+
+def symlink_clause(which):
+    """The symlink postcondition as three separately named (and separately discharged) clauses:
+    link      the link is created inside the root;
+    absolute  an absolute target is a mapped (inside) path;
+    relative  a relative target stays relative and, resolved against the directory that holds the link (the
+              location of map_path(newpath), for every newpath byte string - trailing slashes, '//' and '.'
+              components included), names the same file as SOME path inside the root."""
+    def clause(c):
+        parts = symlink_parts(c)
+        if parts is None:
+            return z3.BoolVal(False)
+        target, link, root, alts = parts
+        absolute = z3.PrefixOf(Z.lit(b'/'), c.arg('oldpath'))
+        if which == 'link':
+            body = P.inside(Z, root, link)
+        elif which == 'absolute':
+            body = z3.Implies(absolute, P.inside(Z, root, target))
+        else:
+            body = z3.Implies(z3.Not(absolute), z3.And(z3.Not(z3.PrefixOf(Z.lit(b'/'), target)),
+                                                       z3.Or(alts) if alts else z3.BoolVal(False)))
+        return z3.Implies(chroot_set(c), body)
+    return clause
 
 
 def link_location_lemma(root, m, d, b, link, bl, mdir, parts=False):
@@ -274,22 +293,45 @@ def link_location_lemma(root, m, d, b, link, bl, mdir, parts=False):
 
 
 def lemma_link_location():
+    """the string lemma, proved for all byte strings: split into 4 exhaustive cases (root ends in '/' or not, d empty
+    or not) x the two conjuncts of the conclusion, each a sub-second cvc5 problem; every piece gets a generous budget
+    of its own (120 s) so that the verdict does not depend on machine load"""
+    import time
     from pyvc import solve
     names = ('root', 'm', 'd', 'b', 'link', 'bl', 'mdir')
     cs = [z3.Const('ll_' + n, BytesS) for n in names]
-    sol = z3.Solver()
-    sol.add(z3.Not(link_location_lemma(*cs)))
-    smt2 = sol.to_smt2()
-    verdict, backend, why = 'unknown', 'z3', ''
+    root, d = cs[0], cs[2]
+    hyp, concl = link_location_lemma(*cs, parts=True)
+    bare, dempty = z3.SuffixOf(Z.lit(b'/'), root), d == Z.lit(b'')
+    cases = [z3.And(x, y) for x in (bare, z3.Not(bare)) for y in (dempty, z3.Not(dempty))]     # exhaustive
+    verdict, pieces, why = 'proved', [], ''
+    saved = solve.CVC5_TIMEOUT_S
+    solve.CVC5_TIMEOUT_S = 120
     try:
-        verdict, why = solve._z3_try(smt2, 5000)
-    except Exception as e:
-        why = repr(e)
-    if verdict == 'unknown':
-        v2, why2 = solve._cvc5(smt2)
-        verdict, backend, why = v2, 'cvc5', why + ' | ' + why2
-    return {'name': 'C13.lemma#link-location-is-the-mapped-directory', 'verdict': verdict, 'backend': backend,
-            'reason': why if verdict == 'unknown' else '', 'replayed': False}
+        for i, cnd in enumerate(cases):
+            for j in range(concl.num_args()):
+                sol = z3.Solver()
+                sol.add(hyp, cnd, z3.Not(concl.arg(j)))
+                smt2 = sol.to_smt2()
+                t0 = time.time()
+                v, w = solve._cvc5(smt2)
+                backend = 'cvc5'
+                if v == 'unknown':
+                    try:
+                        v, w2 = solve._z3_try(smt2, 60000)
+                        backend, w = 'z3', w + ' | ' + w2
+                    except Exception as e:
+                        w += ' | ' + repr(e)
+                pieces.append({'case': i, 'conjunct': j, 'verdict': v, 'backend': backend,
+                               'solver_s': round(time.time() - t0, 2)})
+                if v == 'refuted':
+                    verdict = 'refuted'
+                elif v != 'proved' and verdict == 'proved':
+                    verdict, why = 'unknown', f'case {i} conjunct {j}: {w[:150]}'
+    finally:
+        solve.CVC5_TIMEOUT_S = saved
+    return {'name': 'C13.lemma#link-location-is-the-mapped-directory', 'verdict': verdict, 'backend': 'cvc5',
+            'pieces': pieces, 'reason': why, 'replayed': False}
 
 
 def symlink_lemmas(c):
@@ -314,6 +356,12 @@ def symlink_lemmas(c):
             out.append(z3.Implies(hyp, concl))                      # instance of the proved string lemma
             # its use, as an obligation of its own (keeps the solver's work per goal small): the hypotheses hold here
             out.append(Prove(concl, 'link-location-is-the-mapped-directory'))
+            # proof hint for the existential of the `relative` clause: its witness is the first path mapped on this
+            # path (the virtual target join(directory of newpath, oldpath), mapped).  Proved as an obligation of its
+            # own; the clause itself still only claims SOME inside path (a solver left to search the disjunction
+            # spends its time refuting the other candidates).
+            parts = symlink_parts(c)
+            out.append(Prove(parts[3][0], 'relative-target-resolves-to-the-mapped-virtual-target'))
     return out
 
 
@@ -323,7 +371,9 @@ symlink = Spec(
     stubs=dict(SERVER_STUBS, **{'os.path.relpath': relpath_stub, 'os.symlink': symlink_event_stub}),
     modifies=[],
     requires=chroot_set,        # the property is about a server with a root configured (without one paths are unmapped)
-    ensures=[('link-and-target-stay-inside-root', symlink_post)],
+    ensures=[('link-is-inside-root', symlink_clause('link')),
+             ('absolute-target-is-inside-root', symlink_clause('absolute')),
+             ('relative-target-resolves-inside-root', symlink_clause('relative'))],
     lemmas=symlink_lemmas,
     raises={'OSError': True},
     trusted=P.TRUSTED + ['os.path.realpath / os.path.relpath are uninterpreted functions of their arguments (file '
